@@ -376,6 +376,11 @@ def _variants():
         V("str-compact-len-11", replace_expr(PE, "Perm.__str__", "len(self) <= 10", "len(self) <= 11"), "fire", "C09-N1"),
         V("str-other-separator", replace_expr(PE, "Perm.__str__", "''.join((f'({i})' for i in self))", "','.join((str(i) for i in self))"), "fire", "C09-N1"),
         V("validated-scans-then-builds", replace_stmt(PE, "Perm.from_iterable_validated", "perm = cls(iterable)", "if any(isinstance(v, bool) for v in iterable):\n    raise TypeError('bool')\nperm = cls(iterable)"), "fire", "C09-I1"),
+        V("one-based-plus", replace_expr(PE, "Perm.one_based", "val - 1", "val + 1"), "fire", "C09-D1"),
+        V("identity-from-1", replace_expr(PE, "Perm.identity", "range(length)", "range(1, length)"), "fire", "C09-D1"),
+        V("decreasing-misses-zero", replace_expr(PE, "Perm.monotone_decreasing", "range(length - 1, -1, -1)", "range(length - 1, 0, -1)"), "fire", "C09-D1"),
+        V("from-integer-not-reversed", replace_expr(PE, "Perm.from_integer", "cls.to_standard(reversed(digit_list))", "cls.to_standard(digit_list)"), "fire", "C09-D1"),
+        V("from-string-paren-off-by-one", replace_expr(PE, "Perm.from_string", "string[1:-1]", "string[1:]"), "fire", "C09-D1"),
         # silent
         V("reformat", reformat_only(MP), "silent"),
         V("str-compact-by-max-9", replace_expr(PE, "Perm.__str__", "len(self) <= 10", "max(self) <= 9"), "silent"),
@@ -384,3 +389,61 @@ def _variants():
         V("rank-commuted", replace_expr(MP, "MeshPatt.rank", "x * (n + 1) + y", "y + (n + 1) * x"), "silent"),
         V("unrank-inline-bound", [replace_stmt(MP, "MeshPatt.unrank", "bound = len(pattern) + 1", ""), replace_expr(MP, "MeshPatt.unrank", "divmod(index, bound)", "divmod(index, len(pattern) + 1)")], "silent"),
     ]
+
+
+# ------------------------------------------------------------------------------ D1: one-line constructors / notations
+
+
+ONE_LINERS = [
+    ("one_based", ["return cls(v - 1 for v in a0)"], "one_based subtracts 1 from every entry"),
+    ("identity", ["return cls(range(a0))"], "identity(n) = 0, 1, ..., n-1"),
+    ("monotone_decreasing", ["return cls(range(a0 - 1, -1, -1))"], "monotone_decreasing(n) = n-1, ..., 0"),
+    ("from_string", ["if a0 == 'ε':\n    return cls(())\nif a0.startswith('('):\n    return cls(map(int, a0[1:-1].split(')(')))\nreturn cls(map(int, a0))"], "from_string reads 'ε', the parenthesised and the compact notation"),
+    ("__repr__", ["return f'Perm({super().__repr__()})'"], "repr = Perm(<tuple repr>): evaluates back to the permutation"),
+    ("__new__", ["return tuple.__new__(cls, a0)"], "a Perm is the tuple of its entries"),
+    ("get_perm", ["return self"], "get_perm of a permutation is itself"),
+]
+
+
+def rule_d1(ctx: Ctx) -> None:
+    repo = ctx.repo
+    for name, specs, what in ONE_LINERS:
+        f = repo.method("Perm", name)
+        if f is None or (f.cls is not None and f.cls.name != "Perm"):
+            ctx.note(f"C09-D1: Perm.{name} not present")
+            continue
+        ctx.run(check_skeleton, ctx, "C09-D1", f, specs, what)
+    fi = repo.method("Perm", "from_integer")
+    if fi is not None:
+        ctx.run(_from_integer, ctx, fi)
+
+
+def _from_integer(ctx: Ctx, f: FuncInfo) -> None:
+    """Digits are peeled least significant first (n % 10, n //= 10) and standardised in reverse (= reading order)."""
+    p = f.params[1]
+    loops = [st for st in f.body if isinstance(st, ast.While)]
+    if len(loops) != 1 or unparse(loops[0].test) not in (f"{p} != 0", f"{p} > 0", p):
+        raise AnalysisError(f"{f.where}: digit loop not recognised")
+    body = [unparse(s) for s in loops[0].body]
+    lst = next((unparse(s.targets[0]) if isinstance(s, ast.Assign) else unparse(s.target) for s in f.body if isinstance(s, (ast.Assign, ast.AnnAssign)) and s.value is not None and unparse(s.value) == "[]"), None)
+    if lst is None:
+        raise AnalysisError(f"{f.where}: digit list not found")
+    if body != [f"{lst}.append({p} % 10)", f"{p} //= 10"]:
+        ctx.violation("C09-D1", f, loops[0], f"digits are peeled by `{'; '.join(body)}`; expected append(n % 10); n //= 10")
+        return
+    rets = [st for st in f.body if isinstance(st, ast.Return)]
+    if unparse(rets[-1].value) in (f"cls.to_standard(reversed({lst}))", f"cls.to_standard({lst}[::-1])"):
+        ctx.ok("C09-D1", f.where, "from_integer = standardisation of the decimal digits in reading order", loops[0], f)
+    else:
+        ctx.violation("C09-D1", f, rets[-1], f"the digits are combined as `{unparse(rets[-1].value)}`; expected the standardisation of the digits in reading order (reversed peel order)")
+
+
+_OLD_RUN = run
+
+
+def run(ctx: Ctx) -> None:  # noqa: F811
+    _OLD_RUN(ctx)
+    ctx.run(rule_d1, ctx)
+
+
+FLOORS["C09-D1"] = 7
